@@ -108,7 +108,9 @@ pub mod coll {
         h.finish()
     }
 
-    fn arrange<T>(mut v: Vec<T>, tweak: Tweak) -> Vec<T> {
+    /// Put the raw (bucket-order) elements into the order this container iterates in.
+    /// `id_of` gives the fixed-key identity of an element's key (only evaluated for Zigzag).
+    fn arrange<T>(mut v: Vec<T>, tweak: Tweak, id_of: impl Fn(&T) -> u64) -> Vec<T> {
         match tweak {
             Tweak::None => {}
             Tweak::Reverse => v.reverse(),
@@ -117,6 +119,14 @@ pub mod coll {
                     let r = (v.len() as u64 * p as u64 / 1000) as usize % v.len();
                     v.rotate_left(r);
                 }
+            }
+            Tweak::Zigzag { index, reverse } => {
+                // canonical base order: by key identity; then the family member's permutation
+                let mut keyed: Vec<(u64, T)> = v.into_iter().map(|t| (id_of(&t), t)).collect();
+                keyed.sort_by_key(|(id, _)| *id);
+                let perm = world::zigzag(keyed.len(), index, reverse);
+                let mut slots: Vec<Option<T>> = keyed.into_iter().map(|(_, t)| Some(t)).collect();
+                v = perm.into_iter().map(|i| slots[i as usize].take().unwrap()).collect();
             }
         }
         v
@@ -181,47 +191,40 @@ pub mod coll {
             note_iteration(
                 self.inner.hasher(),
                 &self.iterated,
-                arrange(self.inner.keys().collect(), self.inner.hasher().tweak)
+                arrange(self.inner.keys().collect(), self.inner.hasher().tweak, |k| key_id(*k))
                     .into_iter()
                     .map(|k| key_id(k)),
             );
         }
         pub fn iter(&self) -> std::vec::IntoIter<(&K, &V)> {
             self.note();
-            arrange(self.inner.iter().collect(), self.inner.hasher().tweak).into_iter()
+            arrange(self.inner.iter().collect(), self.inner.hasher().tweak, |t| key_id(t.0)).into_iter()
         }
         pub fn iter_mut(&mut self) -> std::vec::IntoIter<(&K, &mut V)> {
             self.note();
             let t = self.inner.hasher().tweak;
-            arrange(self.inner.iter_mut().collect(), t).into_iter()
+            arrange(self.inner.iter_mut().collect(), t, |t| key_id(t.0)).into_iter()
         }
         pub fn keys(&self) -> std::vec::IntoIter<&K> {
             self.note();
-            arrange(self.inner.keys().collect(), self.inner.hasher().tweak).into_iter()
+            arrange(self.inner.keys().collect(), self.inner.hasher().tweak, |k| key_id(*k)).into_iter()
         }
         pub fn values(&self) -> std::vec::IntoIter<&V> {
-            self.note();
-            arrange(self.inner.values().collect(), self.inner.hasher().tweak).into_iter()
+            self.iter().map(|(_, v)| v).collect::<Vec<_>>().into_iter()
         }
         pub fn values_mut(&mut self) -> std::vec::IntoIter<&mut V> {
-            self.note();
-            let t = self.inner.hasher().tweak;
-            arrange(self.inner.values_mut().collect(), t).into_iter()
+            self.iter_mut().map(|(_, v)| v).collect::<Vec<_>>().into_iter()
         }
         pub fn into_keys(self) -> std::vec::IntoIter<K> {
-            self.note();
-            let t = self.inner.hasher().tweak;
-            arrange(self.inner.into_keys().collect(), t).into_iter()
+            self.into_iter().map(|(k, _)| k).collect::<Vec<_>>().into_iter()
         }
         pub fn into_values(self) -> std::vec::IntoIter<V> {
-            self.note();
-            let t = self.inner.hasher().tweak;
-            arrange(self.inner.into_values().collect(), t).into_iter()
+            self.into_iter().map(|(_, v)| v).collect::<Vec<_>>().into_iter()
         }
         pub fn drain(&mut self) -> std::vec::IntoIter<(K, V)> {
             self.note();
             let t = self.inner.hasher().tweak;
-            arrange(self.inner.drain().collect(), t).into_iter()
+            arrange(self.inner.drain().collect(), t, |t| key_id(&t.0)).into_iter()
         }
     }
 
@@ -249,10 +252,12 @@ pub mod coll {
             }
         }
     }
-    impl<K: std::fmt::Debug, V: std::fmt::Debug> std::fmt::Debug for HashMap<K, V> {
+    impl<K: std::fmt::Debug + Hash, V: std::fmt::Debug> std::fmt::Debug for HashMap<K, V> {
         fn fmt(&self, f: &mut std::fmt::Formatter) -> std::fmt::Result {
             let t = self.inner.hasher().tweak;
-            f.debug_map().entries(arrange(self.inner.iter().collect(), t)).finish()
+            f.debug_map()
+                .entries(arrange(self.inner.iter().collect(), t, |t| key_id(t.0)))
+                .finish()
         }
     }
     impl<K: Hash + Eq, V: PartialEq> PartialEq for HashMap<K, V> {
@@ -267,7 +272,7 @@ pub mod coll {
         fn into_iter(self) -> Self::IntoIter {
             self.note();
             let t = self.inner.hasher().tweak;
-            arrange(self.inner.into_iter().collect(), t).into_iter()
+            arrange(self.inner.into_iter().collect(), t, |t| key_id(&t.0)).into_iter()
         }
     }
     impl<'a, K: Hash + Eq, V> IntoIterator for &'a HashMap<K, V> {
@@ -339,19 +344,19 @@ pub mod coll {
             note_iteration(
                 self.inner.hasher(),
                 &self.iterated,
-                arrange(self.inner.iter().collect(), self.inner.hasher().tweak)
+                arrange(self.inner.iter().collect(), self.inner.hasher().tweak, |k| key_id(*k))
                     .into_iter()
                     .map(|k| key_id(k)),
             );
         }
         pub fn iter(&self) -> std::vec::IntoIter<&T> {
             self.note();
-            arrange(self.inner.iter().collect(), self.inner.hasher().tweak).into_iter()
+            arrange(self.inner.iter().collect(), self.inner.hasher().tweak, |k| key_id(*k)).into_iter()
         }
         pub fn drain(&mut self) -> std::vec::IntoIter<T> {
             self.note();
             let t = self.inner.hasher().tweak;
-            arrange(self.inner.drain().collect(), t).into_iter()
+            arrange(self.inner.drain().collect(), t, |k| key_id(k)).into_iter()
         }
     }
 
@@ -379,10 +384,12 @@ pub mod coll {
             }
         }
     }
-    impl<T: std::fmt::Debug> std::fmt::Debug for HashSet<T> {
+    impl<T: std::fmt::Debug + Hash> std::fmt::Debug for HashSet<T> {
         fn fmt(&self, f: &mut std::fmt::Formatter) -> std::fmt::Result {
             let t = self.inner.hasher().tweak;
-            f.debug_set().entries(arrange(self.inner.iter().collect(), t)).finish()
+            f.debug_set()
+                .entries(arrange(self.inner.iter().collect(), t, |k| key_id(*k)))
+                .finish()
         }
     }
     impl<T: Hash + Eq> PartialEq for HashSet<T> {
@@ -397,7 +404,7 @@ pub mod coll {
         fn into_iter(self) -> Self::IntoIter {
             self.note();
             let t = self.inner.hasher().tweak;
-            arrange(self.inner.into_iter().collect(), t).into_iter()
+            arrange(self.inner.into_iter().collect(), t, |k| key_id(k)).into_iter()
         }
     }
     impl<'a, T: Hash + Eq> IntoIterator for &'a HashSet<T> {
